@@ -119,3 +119,19 @@ OBLIGATIONS = [
        functions=FUNCS[2:], pre=_SAME_FOLD,
        bound="keyword and matched text of 3 free bytes each, equal up to ASCII case"),
 ]
+
+
+def find_all_k2_d7(k0, k1, d0, d1, d2, d3, d4, d5, d6):
+    return _find_all_vs_ref(bytes([k0, k1]), bytes([d0, d1, d2, d3, d4, d5, d6]))
+
+
+def keywords_3x1_d3(k0, j0, m0, d0, d1, d2):
+    return _keywords_vs_ref("lbl", [bytes([k0]), bytes([j0]), bytes([m0])], bytes([d0, d1, d2]))
+
+
+OBLIGATIONS += [
+    Ob("find_all_k2_d7", find_all_k2_d7, bytes_params("k", 2) + bytes_params("d", 7), tier="thorough", timeout=2400, functions=FUNCS[:1],
+       bound="keyword 2 free bytes, data 7 free bytes"),
+    Ob("keywords_3x1_d3", keywords_3x1_d3, bytes_params("k", 1) + bytes_params("j", 1) + bytes_params("m", 1) + bytes_params("d", 3),
+       tier="thorough", timeout=2400, functions=FUNCS, bound="three keywords of 1 free byte, data 3 free bytes"),
+]
